@@ -1,5 +1,6 @@
 CONSTANTS MaxEdits = 2
  Cfgs = {"none", "passB"}
+ InitVals = {"unset", "v0"}
  HashValues = FALSE
  EmitAll = FALSE
 SPECIFICATION Spec
